@@ -344,6 +344,28 @@ def run(program, rep, tier):
             continue
         seen.add(target.name)
         analyse_walk(program, rep, target, world)
+    # the walk must not be memoised: classes defined later must be found
+    for fn in program.all_functions():
+        cached = [d for d in fn.node.decorator_list if (dotted(
+            d.func if isinstance(d, ast.Call) else d) or '').split('.')[-1]
+            in ('lru_cache', 'cache', 'cached_property')]
+        if cached and any(isinstance(x, ast.Attribute)
+                          and x.attr == '__subclasses__'
+                          for x in ast.walk(fn.node)):
+            rep.bad('C06.closure', fn.where, cached[0],
+                    'the set of subclasses is computed once and cached: a '
+                    'subclass defined after the first query is never matched',
+                    line=fn.node.lineno)
+    # remove_processor detaches the matched object from BOTH structures
+    from rules import c07
+    n0 = len(rep.obs)
+    c07.check_writers(program, rep)
+    kept = []
+    for o in rep.obs[n0:]:
+        if 'type filtered out' in o.why or 'execution list drops' in o.why:
+            o.rule = 'C06.single'
+            kept.append(o)
+    rep.obs[n0:] = kept
     rep.floor('C06.cover', 'query entry points reaching a subclass walk',
               covered, 6)
     if covered == 6:
